@@ -68,7 +68,7 @@ impl Check for C02 {
             return ExtraResult::default();
         }
         // coverage-guided search over the same scenario space with the same oracle (harness/fuzz, target pair_oracles)
-        crate::props::pairfuzz::pair_fuzz_extra("C02", seed, 60_000, &|sc| self.run(&Case::Pair(sc.clone())), &|sc| serde_json::to_value(sc).unwrap_or_default())
+        crate::props::pairfuzz::pair_fuzz_extra("C02", seed, 120_000, &|sc| self.run(&Case::Pair(sc.clone())), &|sc| serde_json::to_value(sc).unwrap_or_default())
     }
 
     fn cases(&self, tier: Tier) -> u64 {
